@@ -11,10 +11,10 @@ One(m, d, out, panic, tip901) ==
   \cup (IF ~panic /\ Gt(AbsDiff(out, m), Bound(m)) THEN {<<"C17", "fee multiplier moved by more than 1/128 of its value (or 2 units): wrap-around">>} ELSE {})
 Verdicts(r) ==
     IF r.ev = "feemult"
-    THEN UNION { One(r.m, r.deltas[i], r.outs[i], r.panics[i], r.tip901) : i \in DOMAIN r.deltas }
+    THEN UNION { One(r.m, r.deltas[i], r.outs[i], r.panics[i], Tip901(r.net, r.height)) : i \in DOMAIN r.deltas }
          \cup (IF r.noactionPanic THEN {<<"C09", "sealing without action panicked">>}
                ELSE IF r.noaction # r.m THEN {<<"C17", "a block sealed without a proposer action changed the fee multiplier">>} ELSE {})
-    ELSE UNION { One(r.ins[i], r.deltas[i], r.outs[i], r.panics[i], r.tip901) : i \in DOMAIN r.deltas }
+    ELSE UNION { One(r.ins[i], r.deltas[i], r.outs[i], r.panics[i], Tip901(r.net, r.height)) : i \in DOMAIN r.deltas }
 Init == l = 1
 Next == /\ l <= Len(Rec)
         /\ l' = l + 1
